@@ -140,6 +140,22 @@ static inline SiteMapIt SiteMap_find_f(SiteMap *m, label_t l)
   return it;
 }
 #define SiteMap_find(m_, l_) (*(SiteMapIt[1]){ SiteMap_find_f((m_), (l_)) })        /* an lvalue: callers take its address */
+/* lower_bound: the first position whose key is not less than l (the position of l itself when it is present), end() if there is none */
+static inline SiteMapIt SiteMap_lower_bound_f(SiteMap *m, label_t l)
+{
+  long q = SITEPOS(l), p;
+  __CPROVER_assume(0 <= q && q <= m->n);
+  if (q < m->n) { __CPROVER_assume(SM_label(q) == l); p = q; }
+  else {
+    p = nondet_long();
+    __CPROVER_assume(0 <= p && p <= m->n);
+    if (p < m->n) __CPROVER_assume(SM_label(p) > l);          /* keys are strictly increasing with the position (A2) */
+    if (p > 0) __CPROVER_assume(SM_label(p - 1) < l);
+  }
+  SiteMapIt it = { m, p };
+  return it;
+}
+#define SiteMap_lower_bound(m_, l_) (*(SiteMapIt[1]){ SiteMap_lower_bound_f((m_), (l_)) })
 struct Lattice_Site *SM_ins_slot; label_t SM_ins_label; unsigned long SM_ins_calls;     /* used by the insert model only */
 #ifdef SM_INSERT_MODEL
 /* operator[] as used by Lattice::addSite (`Sites[label] = S`): the reference to the mapped pointer of `label`,
